@@ -26,6 +26,16 @@ AW_DELAYS = [0, 1, 50_000, 300_000, 300_000, US, 2 * US]
 
 
 def decorate(sc, prof):
+    """all later generation stages; every stage draws from its own generator seeded with a hash of the BASE scenario, so each
+    stage leaves the base stream and the other stages' draws bit-identical"""
+    h = zlib.crc32(json.dumps(sc, sort_keys=True).encode())
+    sc = decorate_flavour(sc, prof)
+    sc = decorate_wire(sc, prof, random.Random(h ^ 0x5A17E))
+    sc = decorate_mw(sc, prof, random.Random(h ^ 0x3C0FFEE))
+    return sc
+
+
+def decorate_flavour(sc, prof):
     """Second generation stage, applied to a modest fraction of the scenarios (prof: aw_p, default .15; outage_p, default .06).
     All draws come from a generator seeded with a hash of the base scenario, so the base stream of every profile is what
     it was (the other scenarios are bit-identical) and the result is still a function of (seed, index).
@@ -86,6 +96,185 @@ def decorate(sc, prof):
     return sc
 
 
+# --------------------------------------------------------------------------------------------- third stage: wire form
+# How a VALID message looks on the wire is varied the way real producers vary it.  Every message built here is well-formed
+# by construction (it has the six fields of taskiq.message.TaskiqMessage with values of the declared types, every label that
+# has a declared type carries the string that type's writer produces, no declared type is outside LabelType) - nothing here
+# asks the code under test whether it would accept the message.
+LT = dict(any=1, int=2, str=3, float=4, bool=5, bytes=6)      # taskiq.labels.LabelType as every released client writes it
+LABEL_KEYS = ["prio", "ratio", "tenant", "trace_id", "correlation_id", "x-b3-traceid", "retry_on_error", "max_retries", "queue",
+              "ключ", "a.b", "X-Request-ID", "n", ""]
+LABEL_VALUES = dict(int=[0, 3, -1, 10**12], str=["", "x", "007", "true", "-1", "req-ü-✓", "a b", "null"],
+                    float=[0.5, -3.25, 1e-07, 2.0], bool=[True, False],
+                    bytes=["", "00ff10", "68656c6c6f"],                       # hex of the bytes value
+                    any=[None, [1, "a"], {"k": 1}])                           # any other type: the client writes str(value)
+STAMP_VALUES = ["req-17", "", 17, 0.25, True, None, ["a", 1], {"span": {"id": "ab", "sampled": False}}, "00-4bf9-00f0-01"]
+EXTRA_VALUES = [0, "", "ü✓", [1, [2, [3, {"k": None}]]], {"a": {"b": {"c": [1.5, True, None, "x"]}}}, 2**53 + 1, -1.5e300, [], {},
+                {"i": 99, "dur": 5, "out": "raise"}]
+TOP_FIELDS = [{"version": 2}, {"meta": {"lang": "go", "v": [1, 2]}}, {"eta": None}, {"reply_to": "q1", "priority": 5},
+              {"labels_types_v2": {"a": "int"}}]
+FORMATS = ["proxy-json", "proxy-json", "json", "json", "proxy-pickle"]
+
+
+def task_id_of(shape, i, rr, earlier):
+    if shape == "uuid":
+        return "%032x" % rr.getrandbits(128)
+    if shape == "unicode":
+        return "задача-%d-✓" % i
+    if shape == "long":
+        return "t%d-" % i + "x" * 300
+    if shape == "special":
+        return "a b/c:%d\n\t\"q\"\\{}" % i
+    if shape == "odd":
+        return rr.choice(["-1", "", "0", " ", "null"])          # may coincide with another message's id: both stay valid
+    if shape == "dup" and earlier:
+        return rr.choice(earlier)
+    return str(i)
+
+
+def decorate_wire(sc, prof, rr):
+    """prof: wire_p (default .2).  Touches nothing but the bytes of valid (known-task / unknown-task) messages: schedule,
+    durations, outcomes, horizon stay what they were, so no existing coverage is traded away.
+      sc["fmt"]: proxy-json (ProxyFormatter + JSONSerializer, the default) | json (JSONFormatter) | proxy-pickle
+      m["wire"] = dict(via, tid, labels, lt, ghost, stamps, top, argform, extra, text)
+        via    model: TaskiqMessage(...) through broker.formatter.dumps | kicker: the real AsyncKicker.kiq on the worker's
+               broker object, with a pre_send middleware that stamps / removes labels AFTER the kicker computed labels_types;
+               what broker.kick receives is the wire message | raw: a hand-written mapping (another client implementation)
+        labels [[key, type name, value, typed]]: typed -> the key is in labels_types and the value is written the way
+               prepare_label writes that type; else the plain value, no labels_types entry
+        lt     dict | null | omit (field absent): labels_types covers all / some / none of the keys, is {} or is not there
+        ghost  [[key, type]]: labels_types entries whose key is not among the labels
+        stamps [[key, value]]: labels without a declared type added after typing (tracing / correlation / tenant headers)
+        top    extra top-level fields (raw); argform pos | kw | mixed; extra: nested JSON passed as keyword argument
+        text   dict(ascii, compact, order, proto): JSON escaping / spacing / key order, pickle protocol (raw)"""
+    if rr.random() >= prof.get("wire_p", .2):
+        return sc
+    sc["fmt"] = rr.choice(FORMATS)
+    earlier = []
+    for i, m in enumerate(sc["msgs"]):
+        if m["kind"] == "bad" or m.get("probe") or rr.random() >= .75:
+            continue
+        via = rr.choice(["model", "model", "model", "kicker", "kicker", "kicker", "kicker", "raw", "raw", "raw"])
+        lt = "dict" if via == "kicker" else rr.choice(["dict", "dict", "dict", "null"] + (["omit"] if via == "raw" else []))
+        keys = rr.sample(LABEL_KEYS, rr.choice([0, 0, 1, 1, 2, 3, 5]))
+        mode = rr.choice(["all", "all", "some", "none"]) if lt == "dict" and via != "kicker" else ("all" if lt == "dict" else "none")
+        labels = []
+        for k in keys:
+            tn = rr.choice(list(LT))
+            typed = mode == "all" or (mode == "some" and rr.random() < .5)
+            labels.append([k, tn, rr.choice(LABEL_VALUES[tn]), typed])
+        free = [k for k in LABEL_KEYS if k not in keys]
+        rr.shuffle(free)
+        stamps = [[free.pop(), rr.choice(STAMP_VALUES)] for _ in range(rr.choice([0, 0, 1, 1, 1, 2]))]
+        ghost = [[free.pop(), rr.choice(list(LT.values()))] for _ in range(rr.choice([0, 0, 0, 1, 2]))] if lt == "dict" else []
+        w = dict(via=via, tid=task_id_of(rr.choice(["plain", "plain", "uuid", "uuid", "unicode", "long", "special", "odd", "dup"]),
+                                         i, rr, earlier),
+                 labels=labels, lt=lt, ghost=ghost, stamps=stamps,
+                 # the timeout label (when the base scenario has one) is typed FLOAT or left a plain number
+                 timeout_typed=lt == "dict" and (via == "kicker" or rr.random() < .5),
+                 argform=rr.choice(["pos", "pos", "kw", "mixed"]))
+        if rr.random() < .35:
+            w["extra"] = rr.choice(EXTRA_VALUES)
+        if via == "raw":
+            if rr.random() < .5:
+                w["top"] = rr.choice(TOP_FIELDS)
+            w["text"] = dict(ascii=rr.random() < .5, compact=rr.random() < .5, order=rr.randrange(720),
+                             proto=rr.choice([0, 2, 4, 5]))
+        if via == "kicker":
+            w["pre_send"] = rr.choice(["sync", "sync", "async"])
+        earlier.append(w["tid"])
+        m["wire"] = w
+    return sc
+
+
+def wire_cover(w, has_timeout=False):
+    """how labels_types relates to the labels of one wire message (evidence only)"""
+    if w["lt"] != "dict":
+        return "labels_types-" + w["lt"]
+    keys = [(l[0], l[3]) for l in w["labels"]] + [(s[0], False) for s in w["stamps"]] + ([("timeout", w["timeout_typed"])] if has_timeout else [])
+    n, t = len(keys), sum(1 for _, ty in keys if ty)
+    return "labels_types-" + ("{}-no-labels" if not n and not w["ghost"] else "{}-labels-present" if not t and not w["ghost"]
+                              else "covers-all" if t == n else "covers-some" if t else "covers-none")
+
+
+# --------------------------------------------------------------------------------------------- fourth stage: middlewares
+MW_HOOKS = ("pre", "post", "post_save", "on_error")
+
+
+def decorate_mw(sc, prof, rr):
+    """prof: mw_p (default 0: opt-in, the profiles without the key are untouched).  Several recording middlewares on the
+    worker's broker; per message, each hook invocation of each of them is independently an ordinary return, a suspension
+    for a virtual delay, or a failure (at once, or after the delay).
+      sc["mws"] = [dict(decl: def | async, hooks: [pre | post | post_save | on_error])]   (which hooks the class overrides,
+                  declared `async def` or plain `def` - a plain one hands back a value or an awaitable)
+      m["mw"]   = [per middleware: {hook: dict(style: sync | coro | future | task | awaitobj | gencoro, us, fail: error |
+                  cancel | base, fail_at: begin | end)}]   (no entry: the hook returns at once)
+    Raw log: `hook.begin i "k:hook"` when the invocation begins, `hook.end i "k:hook"` when it has REALLY finished (whoever
+    awaits it, however it ends)."""
+    if rr.random() >= prof.get("mw_p", 0):
+        return sc
+    K = rr.choice([2, 2, 3, 3, 4])
+    shared = rr.choice(["post_save", "post_save", "post_save", "post", "pre", "on_error"])
+    mws = []
+    for k in range(K):
+        hooks = {shared} if k < 2 or rr.random() < .6 else set()
+        for h in MW_HOOKS:
+            if rr.random() < .3:
+                hooks.add(h)
+        if not hooks:
+            hooks.add(shared)
+        mws.append(dict(decl=rr.choice(["def", "async", "async"]), hooks=[h for h in MW_HOOKS if h in hooks]))
+    sc["mws"] = mws
+    extra = 0
+
+    def spec(k, susp, fail):
+        d = {}
+        if susp or (fail and rr.random() < .3):
+            d["us"] = rr.choice([1, 50_000, 300_000, US, 2 * US, 3 * US]) if susp else rr.choice([1, 50_000])
+        d["style"] = "coro" if mws[k]["decl"] == "async" else \
+            rr.choice(["coro", "future", "task", "awaitobj", "gencoro"] + ([] if d.get("us") else ["sync", "sync"]))
+        if fail:
+            d["fail"] = fail
+            d["fail_at"] = "begin" if not d.get("us") or rr.random() < .3 else "end"
+        return d
+
+    for m in sc["msgs"]:
+        if m["kind"] != "ok" or m.get("probe") or rr.random() >= .7:
+            continue
+        fails = m["out"] != "ret" or (m.get("tlabel_us") is not None and m["tlabel_us"] < m["dur"])
+        per = [{} for _ in range(K)]
+        # a hook that several middlewares have: one of them fails while another is slow (either order) ...
+        for h, p in (("pre", .1), ("post", .2), ("post_save", .5), ("on_error", .3)):
+            having = [k for k in range(K) if h in mws[k]["hooks"]]
+            if len(having) >= 2 and (h != "on_error" or fails) and rr.random() < p:
+                a, b = rr.sample(having, 2)
+                per[a][h] = spec(a, True, None)
+                per[b][h] = spec(b, rr.random() < .3, rr.choice(["error", "error", "error", "cancel", "base"]))
+        # ... and independent draws for the rest
+        for k in range(K):
+            for h in mws[k]["hooks"]:
+                if h in per[k] or rr.random() >= .2:
+                    continue
+                per[k][h] = spec(k, rr.random() < .6, rr.choice(["error", "error", "cancel", "base"]) if rr.random() < .2 else None)
+        for d in per:
+            for s in d.values():
+                extra += s.get("us", 0)
+        m["mw"] = per
+    if extra:
+        sc["horizon_us"] += extra
+        if "probe_at" in sc:
+            sc["probe_at"] += extra
+            for m in sc["msgs"]:
+                if m.get("probe"):
+                    m["at"] += extra
+    return sc
+
+
+def mw_pre_fails(m):
+    """a pre_execute hook of one of the extra middlewares fails: the message never reaches its task function (C10's business)"""
+    return any(d.get("pre", {}).get("fail") for d in m.get("mw") or [])
+
+
 def count_inputs(rep, sc):
     """evidence distribution of the second-stage input kinds"""
     rep.count("input-flavour:" + sc.get("flavour", "base"))
@@ -97,10 +286,51 @@ def count_inputs(rep, sc):
             rep.count("hook-returning-awaitable:%s/%s%s" % (h["where"], h["style"], "/completes-later" if h.get("us") else ""))
     if sc.get("flavour") == "outage":
         rep.count("backend-outage:%d-messages" % min(sum(1 for m in sc["msgs"] if m.get("save_fail")), 6))
+    if sc.get("fmt"):
+        rep.count("wire:scenario-with-varied-wire-form")
+        rep.count("wire:formatter=" + sc["fmt"])
+    tids = [m["wire"]["tid"] if m.get("wire") else str(i) for i, m in enumerate(sc["msgs"]) if m["kind"] != "bad"]
+    if len(set(tids)) < len(tids):
+        rep.count("wire:scenario-with-duplicate-task-ids")
+    for i, m in enumerate(sc["msgs"]):
+        w = m.get("wire")
+        if not w:
+            continue
+        rep.count("wire:via=" + w["via"])
+        rep.count("wire:" + wire_cover(w, m.get("tlabel_us") is not None))
+        if w["stamps"]:
+            rep.count("wire:label-without-declared-type-beside-typed-ones" if w["lt"] == "dict" else "wire:stamped-label")
+            if w["via"] == "kicker":
+                rep.count("wire:label-stamped-by-pre_send-middleware-after-typing")
+        if w["ghost"]:
+            rep.count("wire:labels_types-entry-for-absent-label")
+        for l in w["labels"]:
+            rep.count("wire:label-%s:%s" % ("typed" if l[3] else "untyped", l[1]))
+        if w["tid"] != str(i):
+            rep.count("wire:task-id-not-plain")
+        rep.count("wire:args=" + w["argform"])
+        if "extra" in w:
+            rep.count("wire:nested-json-argument")
+        if w.get("top"):
+            rep.count("wire:extra-top-level-field")
+    if sc.get("mws"):
+        rep.count("middlewares:%d-extra" % len(sc["mws"]))
+        for mw in sc["mws"]:
+            rep.count("middleware-hooks-declared:" + mw["decl"])
+        for m in sc["msgs"]:
+            for k, d in enumerate(m.get("mw") or []):
+                for h, s in d.items():
+                    rep.count("mw-hook:%s/%s/%s/%s" % (h, s["style"], "suspends" if s.get("us") else "at-once",
+                                                       ("fails-%s-%s" % (s["fail"], s["fail_at"])) if s.get("fail") else "returns"))
+            per = m.get("mw") or []
+            for h in MW_HOOKS:
+                ss = [d[h] for d in per if h in d]
+                if any(x.get("fail") for x in ss) and any(x.get("us") and not x.get("fail") for x in ss):
+                    rep.count("message:one-%s-hook-fails-another-suspends" % h)
 
 
 def gen_scenario(r, prof):
-    """prof: dict(limited_only, backlog, never, stop_p, n_p, ends_p, probe, faults, wtt_p, slowcancel, abort_p, aw_p, outage_p)"""
+    """prof: dict(limited_only, backlog, never, stop_p, n_p, ends_p, probe, faults, wtt_p, slowcancel, abort_p, aw_p, outage_p, wire_p, mw_p)"""
     return decorate(gen_base(r, prof), prof)
 
 
@@ -255,7 +485,7 @@ class Facts:
 
     def must_run(self, i):
         m = self.sc["msgs"][i]
-        return m["kind"] == "ok" and not m.get("pre_fail")
+        return m["kind"] == "ok" and not m.get("pre_fail") and not mw_pre_fails(m)
 
     def processing_at_end(self):
         return [i for i in self.cbstart if i not in self.cbend]
@@ -350,6 +580,8 @@ def replay_print(ctx, path, oracle, check):
     print("scenario:", json.dumps({k: v for k, v in sc.items() if k != "msgs"}))
     for i, m in enumerate(sc["msgs"]):
         print("  msg %d: %s" % (i, json.dumps(m)))
+    for i, b in sorted((obs.get("wire") or {}).items(), key=lambda x: int(x[0])):
+        print("  msg %s on the wire: %s" % (i, b))
     if "_crash" in obs:
         print("driver crashed:", obs["_crash"])
         return 1
@@ -359,7 +591,7 @@ def replay_print(ctx, path, oracle, check):
     for e in shown[:300]:
         print("  %10d %s %s%s" % (e[0], e[1], "" if e[2] is None else e[2],
                                    " (the callback task ended CANCELLED)" if e[1] == "cb.done" and e[3] == "cancelled" else
-                                   " (%s)" % e[3] if e[1] in ("ack", "hook.aw", "hook.aw.end") and e[3] else
+                                   " (%s)" % e[3] if e[1] in ("ack", "hook.aw", "hook.aw.end", "hook.begin", "hook.end") and e[3] else
                                    " (a task was created while this message's callback task was running)" if e[1] == "bg.new" else ""))
     print("  (%d raw events, idle polling omitted)" % len(raw))
     lts = obs["lts"]
